@@ -232,12 +232,27 @@ def run_and_judge(ctx, family, binp, lines, view, confirm=True):
     log("[%s] %d event(s) rejected by the specification; confirming" % (ctx.prop, len(rej)))
     # confirmation: re-run the rejected cases on their own (at most 40)
     sub = rej[:40]
+    prefixes = {}
     if confirm:
         ev2, _ = vlib.exec_cases(binp, [lines[i] for i in sub], os.path.join(wd, "exec2"), nshards=1)
         rej2, _ = vlib.validate("Trace_Stateless", "Trace_Stateless.cfg", {"PROP": view}, ev2, os.path.join(wd, "val2"), nshards=1)
         confirmed = [(sub[k], ev2[k]) for k in sorted(rej2)]
-        if len(confirmed) < len(sub):
-            log("[%s] %d rejection(s) did not reproduce and are not reported" % (ctx.prop, len(sub) - len(confirmed)))
+        lone = [sub[k] for k in range(len(sub)) if k not in rej2]
+        if lone:
+            # not reproduced by the cases on their own: the outcome may depend on what the process executed before
+            # (a cache, a static, a hint).  Re-run the whole list with the same sharding; a case rejected again in
+            # the same place is confirmed, and its replay record carries the cases that ran before it in its process.
+            ev3, _ = vlib.exec_cases(binp, lines, os.path.join(wd, "exec3"))
+            rej3, _ = vlib.validate("Trace_Stateless", "Trace_Stateless.cfg", {"PROP": view}, [ev3[i] for i in lone], os.path.join(wd, "val3"), nshards=1)
+            nsh = vlib.shard_count(len(lines))
+            for k in sorted(rej3):
+                i = lone[k]
+                confirmed.append((i, ev3[i]))
+                prefixes[i] = [json.loads(lines[j]) for j in range(i % nsh, i, nsh)][-4000:]
+            if len(rej3) < len(lone):
+                log("[%s] %d rejection(s) did not reproduce and are not reported" % (ctx.prop, len(lone) - len(rej3)))
+            if rej3:
+                log("[%s] %d rejection(s) reproduce only after the calls that preceded them in the same process" % (ctx.prop, len(rej3)))
     else:
         confirmed = [(i, events[i]) for i in sub]
     for i, ev in confirmed:
@@ -245,6 +260,11 @@ def run_and_judge(ctx, family, binp, lines, view, confirm=True):
         k = vlib.known_match(ctx.prop, c)
         if k:
             ctx.known.append((k, c))
+        elif i in prefixes:
+            c = dict(c)
+            c["_prefix"] = prefixes[i]
+            ctx.violations.append((c, json.loads(ev), "%d events rejected in family %s; this one only after the %d calls that preceded it in its process "
+                                   "(the result of a call depends on the history of the process)" % (len(rej), family, len(prefixes[i]))))
         else:
             ctx.violations.append((c, json.loads(ev), "%d events rejected in family %s" % (len(rej), family)))
 
@@ -953,6 +973,17 @@ def replay(ctx, path):
         binp = build_family("Ex", "ex", cases_path)
     else:
         binp = vlib.build("exact", EXACT_SOURCES)
+    if "_prefix" in c:
+        # history-dependent rejection: the preceding calls of its process are replayed first, in one process
+        pre = c.pop("_prefix")
+        seq = [json.dumps(x) for x in pre] + [json.dumps(c)]
+        wd = vlib.ensure(os.path.join(ctx.work, "replay"))
+        evs, _ = vlib.exec_cases(binp, seq, os.path.join(wd, "exec"), nshards=1)
+        rej, _ = vlib.validate("Trace_Stateless", "Trace_Stateless.cfg", {"PROP": view}, [evs[-1]], os.path.join(wd, "val"), nshards=1)
+        if rej:
+            print("VIOLATION property=%s replay=%s" % (ctx.prop, path))
+            print(evs[-1][:2000])
+        return 1 if rej else 0
     run_and_judge(ctx, "replay", binp, [json.dumps(c)], view, confirm=False)
     for c, ev, note in ctx.violations:
         print("VIOLATION property=%s replay=%s" % (ctx.prop, path))
